@@ -20,6 +20,7 @@ import (
 	"go/types"
 	"math"
 	"os"
+	"sort"
 	"strings"
 
 	"golang.org/x/tools/go/ssa"
@@ -169,6 +170,8 @@ type simCtx struct {
 	phiBusy    map[*ssa.Phi]bool
 	lookupBusy bool
 	chainDepth int
+	allocBusy  map[*ssa.Alloc]bool
+	phiSel     map[*ssa.Phi]ssa.Value  // incoming value selected along the path being explored
 	litLoop    *sliceRange             // loop over a list literal that contains the subject: its element stands for the subject
 	boolParams map[*ssa.Parameter]bool // bool parameters whose value is a constant at the call site
 }
@@ -857,6 +860,11 @@ func (c *simCtx) oracleCmp(b *ssa.BinOp) (bool, bool) {
 			ev = b.Y
 		}
 		if ev != nil {
+			if ph, ok := ev.(*ssa.Phi); ok {
+				if sel, ok := c.phiSel[ph]; ok && isNilConst(sel) {
+					return b.Op == token.EQL, true // the path taken left the error nil
+				}
+			}
 			if fails, known := c.errValueFails(ev); known && fails {
 				return b.Op == token.NEQ, true
 			}
@@ -953,6 +961,18 @@ func (c *simCtx) errValueFails(ev ssa.Value) (bool, bool) {
 	case *ssa.Call:
 		call, idx = x, 0
 	case *ssa.Phi:
+		// the incoming value selected by the path being explored
+		if sel, ok := c.phiSel[x]; ok && sel != ssa.Value(x) {
+			if isNilConst(sel) {
+				return false, true
+			}
+			if isErrorCtor(sel) {
+				return true, true
+			}
+			if _, isPhi := sel.(*ssa.Phi); !isPhi {
+				return c.errValueFails(sel)
+			}
+		}
 		// the incoming value selected under the scenario (an error variable set
 		// on the offending branch and returned later), else: all incoming values fail?
 		if !c.phiBusy[x] {
@@ -1442,6 +1462,14 @@ func (c *simCtx) explore(start *ssa.BasicBlock, stop map[*ssa.BasicBlock]bool) m
 	for iter := 0; iter < 3; iter++ {
 		seen := map[*ssa.BasicBlock]bool{}
 		backEdge := map[*ssa.BasicBlock]bool{}
+		// error-typed and boolean phis are tracked along the path (a single-exit `err`
+		// merged from several arms, a flag): the value selected by the entering edge
+		type visitKey struct {
+			b   *ssa.BasicBlock
+			env string
+		}
+		visited := map[visitKey]bool{}
+		budget := 3000
 		var walk func(b, from *ssa.BasicBlock)
 		walk = func(b, from *ssa.BasicBlock) {
 			if stop[b] {
@@ -1450,8 +1478,74 @@ func (c *simCtx) explore(start *ssa.BasicBlock, stop map[*ssa.BasicBlock]bool) m
 			if _, isHdr := blocked[b]; isHdr && from != nil && seen[b] {
 				backEdge[b] = true
 			}
+			// select the incoming values of b's tracked phis
+			saved := c.phiSel
+			changedEnv := false
+			if from != nil {
+				for _, in := range b.Instrs {
+					ph, ok := in.(*ssa.Phi)
+					if !ok {
+						break
+					}
+					if !isErrorType(ph.Type()) {
+						if bt, isB := ph.Type().Underlying().(*types.Basic); !isB || bt.Kind() != types.Bool {
+							continue
+						}
+					}
+					for k, pred := range b.Preds {
+						if pred != from || k >= len(ph.Edges) {
+							continue
+						}
+						v := ph.Edges[k]
+						if q, isPhi := v.(*ssa.Phi); isPhi {
+							if sel, ok := c.phiSel[q]; ok {
+								v = sel
+							}
+						}
+						if !changedEnv {
+							n := map[*ssa.Phi]ssa.Value{}
+							for p2, v2 := range c.phiSel {
+								n[p2] = v2
+							}
+							c.phiSel = n
+							changedEnv = true
+						}
+						c.phiSel[ph] = v
+						break
+					}
+				}
+			}
+			defer func() { c.phiSel = saved }()
 			if seen[b] {
-				return
+				// revisit only when the tracked values differ from every earlier visit
+				if len(c.phiSel) == 0 || budget <= 0 {
+					return
+				}
+				var parts []string
+				for p2, v2 := range c.phiSel {
+					if p2.Block() == b {
+						parts = append(parts, p2.Name()+"="+v2.Name())
+					}
+				}
+				if len(parts) == 0 {
+					return
+				}
+				sort.Strings(parts)
+				key := visitKey{b, strings.Join(parts, ",")}
+				if visited[key] {
+					return
+				}
+				visited[key] = true
+				budget--
+			} else {
+				var parts []string
+				for p2, v2 := range c.phiSel {
+					if p2.Block() == b {
+						parts = append(parts, p2.Name()+"="+v2.Name())
+					}
+				}
+				sort.Strings(parts)
+				visited[visitKey{b, strings.Join(parts, ",")}] = true
 			}
 			seen[b] = true
 			t, f, i := ifSuccs(b)
@@ -1528,6 +1622,12 @@ func (c *simCtx) verdict(reach map[*ssa.BasicBlock]bool, loop *sliceRange) (bool
 					continue
 				}
 				traced = known // the error of a module callee that can succeed under the scenario
+				// ... unless this return is only reached on a branch decided by another result of
+				// the same call (if err, ok := validate(x); !ok { return 0, err }): which of the
+				// callee's returns produced the error is then not "any of them"
+				if traced && guardedBySibling(c.f, r.Results[ei], r.Block()) {
+					traced = false
+				}
 			}
 			// a returned error value that is neither the nil constant nor recognisably an
 			// error nor a callee's result (a variable, a value from another package): not
@@ -1714,6 +1814,14 @@ func (c *simCtx) mentionsSubject(v ssa.Value, depth int) bool {
 		}
 		return false
 	case *ssa.UnOp:
+		// a local variable that is assigned under a test of the subject (err = errInvalid in
+		// one arm of a switch over the argument's fields; a flag set on the failing edge)
+		// carries what that test found out
+		if x.Op == token.MUL {
+			if al, ok := x.X.(*ssa.Alloc); ok && c.assignedUnderSubjectTest(al, depth) {
+				return true
+			}
+		}
 		return c.mentionsSubject(x.X, depth+1)
 	case *ssa.Convert:
 		return c.mentionsSubject(x.X, depth+1)
@@ -2078,15 +2186,96 @@ func countedLoopsOver(f *ssa.Function, list ssa.Value) map[*ssa.BasicBlock]*ssa.
 		if !ok || phi.Block() != blk {
 			continue
 		}
-		zero := false
+		zero, unit := false, true
 		for i, e := range phi.Edges {
 			if k, isK := constInt(e); isK && k == 0 && !blk.Dominates(blk.Preds[i]) {
 				zero = true
+				continue
+			}
+			// every other incoming value is the counter plus one (a stride other than 1, or a
+			// counter that jumps, does not visit every position)
+			inc, ok := resolve(e).(*ssa.BinOp)
+			if !ok || inc.Op != token.ADD || stripConv(inc.X) != ssa.Value(phi) {
+				unit = false
+				continue
+			}
+			if k, isK := constInt(inc.Y); !isK || k != 1 {
+				unit = false
 			}
 		}
-		if zero {
+		if zero && unit {
 			out[blk] = fl
 		}
 	}
 	return out
+}
+
+// guardedBySibling: v is one result of a call, and the block is reached only
+// through a branch whose condition is another result of that same call.
+func guardedBySibling(f *ssa.Function, v ssa.Value, at *ssa.BasicBlock) bool {
+	ex, ok := resolve(v).(*ssa.Extract)
+	if !ok {
+		return false
+	}
+	for _, blk := range f.Blocks {
+		t, fl, ifi := ifSuccs(blk)
+		if ifi == nil {
+			continue
+		}
+		c := resolve(ifi.Cond)
+		if u, ok := c.(*ssa.UnOp); ok && u.Op == token.NOT {
+			c = resolve(u.X)
+		}
+		ce, ok := c.(*ssa.Extract)
+		if !ok || ce.Tuple != ex.Tuple || ce.Index == ex.Index {
+			continue
+		}
+		for _, s := range []*ssa.BasicBlock{t, fl} {
+			if s == at || blockDominatedByEdge(f, blk, s, at) {
+				return true
+			}
+		}
+	}
+	return false
+}
+
+// assignedUnderSubjectTest: some store into the local variable sits in a block
+// that is reached only through one edge of a branch whose condition mentions
+// the subject.
+func (c *simCtx) assignedUnderSubjectTest(al *ssa.Alloc, depth int) bool {
+	if al.Referrers() == nil || depth > 3 {
+		return false
+	}
+	if c.allocBusy == nil {
+		c.allocBusy = map[*ssa.Alloc]bool{}
+	}
+	if c.allocBusy[al] {
+		return false
+	}
+	c.allocBusy[al] = true
+	defer delete(c.allocBusy, al)
+	for _, ref := range *al.Referrers() {
+		st, ok := ref.(*ssa.Store)
+		if !ok || st.Addr != ssa.Value(al) || st.Parent() != c.f {
+			continue
+		}
+		for _, blk := range c.f.Blocks {
+			t, fl, ifi := ifSuccs(blk)
+			if ifi == nil || t == fl {
+				continue
+			}
+			under := false
+			for _, s := range []*ssa.BasicBlock{t, fl} {
+				if s == st.Block() && len(s.Preds) == 1 {
+					under = true
+				} else if blockDominatedByEdge(c.f, blk, s, st.Block()) {
+					under = true
+				}
+			}
+			if under && c.mentionsSubject(ifi.Cond, depth+2) {
+				return true
+			}
+		}
+	}
+	return false
 }
